@@ -96,6 +96,9 @@ def tasks(tier, seed):
                     "caps": {"max_seconds": 400, "solver_timeout_ms": 120000}})
     for b, sd in ([(25, "float32"), (8, "float32"), (12, "float16")] if tier == "quick" else [(26, "float32"), (32, "float32"), (8, "float32"), (24, "float32"), (12, "float16"), (16, "float16"), (10, "float16")]):
         out.append({"fn": "sar_noise", "kwargs": {"bits": b, "sigdtype": sd}, "label": f"sar_noise/zero_noise/bits={b},{sd}", "caps": {"solver_timeout_ms": 120000, "max_seconds": 400}})
+    for b, vm in ([(4, 3.3), (6, 0.7)] if tier == "quick" else [(4, 3.3), (6, 0.7), (8, 3.3), (8, 1.8), (10, 3.3)]):
+        out.append({"fn": "sar_models_fp", "kwargs": {"bits": b, "vmax": vm}, "label": f"sar_noise/models/fp,bits={b},vmax={vm}", "solver": "cvc5", "cross_check": False,
+                    "caps": {"max_seconds": 400, "solver_timeout_ms": 120000}})
     for b in [4] if tier == "quick" else [4, 6, 8]:
         out.append({"fn": "sar_fp", "kwargs": {"bits": b, "vmax": 5.0}, "label": f"sar/fp/bits={b}", "solver": "cvc5", "cross_check": False,
                     "caps": {"max_seconds": 400, "solver_timeout_ms": 120000}})
@@ -452,6 +455,35 @@ def sar_noise_fp(bits, vmax, sigdtype="float64"):
         vx.prove(f"C16/sar_noise/full_scale/{lab}", vx.implies(x >= vmax, cb == 2**bits - 1))
 
 
+def sar_models_fp(bits, vmax):
+    """Exact IEEE-754, through the two MODELS (detector-level entry points): sar_adc and sar_adc_with_noise with all strengths and
+    noises zero store the very same code for every finite double voltage, on a range (0, vmax)."""
+    mods = _mods()
+    sar, sarn = mods[1], mods[2]
+    x = vx.fp("x")
+    vx.assume(~x.isnan(), "input voltage is not NaN")
+    images = []
+    with Patch() as p:
+        p.numpy(ADC_MODS[1], ADC_MODS[2], ADC_MODS[3], "pyxel.data_structure.array", "pyxel.data_structure.image", "pyxel.data_structure.signal")
+        import types
+
+        shim = types.ModuleType("symnp_zero_noise")
+        shim.__getattr__ = lambda name: _ZeroNoiseRandom if name == "random" else getattr(symnp, name)  # type: ignore[attr-defined]
+        p.attr(sarn, "np", shim, "np.random.normal(loc, 0) == loc")
+        for which in ("plain", "noisy"):
+            det = make_ccd(1, 1)
+            det.characteristics._adc_bit_resolution = bits
+            det.characteristics._adc_voltage_range = (0.0, vmax)
+            det.signal.array = symnp.SymArray.from_elems([x], (1, 1), np.float64)
+            if which == "plain":
+                sar.sar_adc(det)
+            else:
+                sarn.sar_adc_with_noise(det, strengths=[0.0] * bits, noises=[0.0] * bits)
+            images.append(det.image.array)
+    a, b = images
+    vx.prove(f"C16/sar_noise/models_zero_noise_equiv/fp,bits={bits},vmax={vmax}", (a.elems()[0] == b.elems()[0]) & (a.dtype == b.dtype))
+
+
 # ------------------------------------------------------------------------------------------------
 def _f(v):
     return float(v) if v is not None else 0.0
@@ -510,6 +542,20 @@ def replay(oid, kwargs, model, data):
         if clause == "zero":
             return (x <= 0 and cx != 0), det
         return False, det
+    if fn == "sar_models_fp":
+        from pyxel.models.readout_electronics import sar_adc, sar_adc_with_noise
+
+        bits, vmax, x = kwargs["bits"], kwargs["vmax"], _f(model.get("x"))
+        out = []
+        for f, kw in ((sar_adc, {}), (sar_adc_with_noise, {"strengths": [0.0] * bits, "noises": [0.0] * bits})):
+            det = make_ccd(1, 1)
+            det.characteristics._adc_bit_resolution = bits
+            det.characteristics._adc_voltage_range = (0.0, vmax)
+            det.signal.array = np.array([[x]], dtype=float)
+            f(det, **kw)
+            out.append(det.image.array)
+        same = out[0].dtype == out[1].dtype and np.array_equal(out[0], out[1])
+        return (not same), {"x": x.hex(), "vmax": vmax, "sar_adc": out[0].tolist(), "sar_adc_with_noise_zero_noise": out[1].tolist()}
     if fn == "sar_models_equiv":
         from pyxel.models.readout_electronics import sar_adc, sar_adc_with_noise
 
